@@ -16,7 +16,7 @@ def _classify(names):
     return classify
 
 
-def table(prog, f, env, a_name, b_name):
+def table(prog, f, env, a_name, b_name, indirect_target=None):
     """evaluate f for every ordering of the three keys of A relative to B; returns {rel3: -1/0/1} or raises Undecided"""
     out = {}
     for rel in itertools.product((-1, 0, 1), repeat=3):
@@ -34,6 +34,7 @@ def table(prog, f, env, a_name, b_name):
         names = {}
         ev = dtable.Evaluator(f, _classify(names), relation, lambda bb, v, t: None, prog=prog,
                               inline=lambda t: t.crate in ("mdk_storage_traits",) and not t.is_test_like())
+        ev.indirect_target = indirect_target
         res = ev.run(dict(env))
         if not res or res[0] != "ordering":
             raise dtable.Undecided("comparator returned %r" % (res,))
